@@ -135,6 +135,25 @@ theorem planned_args_eq (s : Schema) (defs : List ArgDef) (asts : List Argument)
     plannedArgs s (planArguments s defs asts) vars = getArgumentValues s defs asts vars :=
   plannedArgs_eq s defs asts vars
 
+/-- The static/dynamic split scans the whole literal: `hasVars` is true iff a variable occurs anywhere inside
+(any depth, any list index, any field position — first, middle or last), so an argument literal that mixes
+literal and variable parts is never pre-coerced; together with `planned_args_eq` (which holds for all argument
+ASTs, mixed ones included) plan-time pre-coercion can never lose a variable. -/
+theorem hasVars_full_scan (l : Value) : hasVars l = true ↔ VarIn l := hasVars_iff_varIn l
+
+theorem astHasVariables_full_scan (asts : List Argument) :
+    astHasVariables asts = true ↔ ∃ a ∈ asts, VarIn a.value := astHasVariables_iff' asts
+
+/-- a mixed argument literal is planned as dynamic -/
+theorem mixed_literal_is_dynamic (s : Schema) (defs : List ArgDef) (asts : List Argument)
+    (h : ∃ a ∈ asts, VarIn a.value) : planArguments s defs asts = .dynamic defs asts := by
+  have hv := (astHasVariables_full_scan asts).mpr h
+  obtain ⟨a, ha, _⟩ := h
+  have hne : asts.isEmpty = false := by cases asts with
+    | nil => cases ha
+    | cons _ _ => rfl
+  simp [planArguments, hv, hne]
+
 /-! ## 32-bit Int -/
 
 /-- Every Int the library coerces — from a variable value of any kind (bool, int, fraction, numeric string) or
@@ -245,6 +264,24 @@ def exArgs : List Argument := [⟨⟨"a", L0⟩, .int "7" L0, L0⟩]
 example : astHasVariables exArgs = false := by decide +kernel
 example : (JVal.obj (getArgumentValues exSchema exArgDefs exArgs [("x", .int 1)])
     == .obj [("a", .list [.int 7]), ("b", .int 1)]) = true := by decide +kernel
+
+-- mixed literal/variable argument: `search(f: {name: "x", tag: $tag, limit: $lim})` — variable in the middle and
+-- last field, in a list, nested; planned as dynamic and evaluated with the request's variables
+def exMixed : Value := .obj [.mk ⟨"b", L0⟩ (.int "1" L0) L0, .mk ⟨"a", L0⟩ (.var "x" L0) L0,
+  .mk ⟨"r", L0⟩ (.obj [.mk ⟨"b", L0⟩ (.int "2" L0) L0, .mk ⟨"l", L0⟩ (.list [.enum "RED" L0, .var "e" L0] L0) L0] L0) L0] L0
+def exMixedDefs : List ArgDef := [⟨"f", .named "In", none, ""⟩]
+def exMixedArgs : List Argument := [⟨⟨"f", L0⟩, exMixed, L0⟩]
+example : hasVars exMixed = true := by decide +kernel
+example : hasVars (.obj [.mk ⟨"b", L0⟩ (.int "1" L0) L0, .mk ⟨"a", L0⟩ (.var "x" L0) L0] L0) = true := by decide +kernel
+example : hasVars (.list [.int "1" L0, .int "2" L0, .var "x" L0] L0) = true := by decide +kernel
+example : (match planArguments exSchema exMixedDefs exMixedArgs with | .dynamic _ _ => true | _ => false) = true := by
+  decide +kernel
+example : (JVal.obj (plannedArgs exSchema (planArguments exSchema exMixedDefs exMixedArgs) [("x", .int 9), ("e", .str "g")])
+    == .obj [("f", .obj [("a", .int 9), ("b", .int 1), ("r", .obj [("a", .int 5), ("b", .int 2), ("l", .list [.int 0, .str "g"])])])]) = true := by
+  decide +kernel
+example : (JVal.obj (plannedArgs exSchema (planArguments exSchema exMixedDefs exMixedArgs) [])
+    == .obj [("f", .obj [("a", .int 5), ("b", .int 1), ("r", .obj [("a", .int 5), ("b", .int 2), ("l", .list [.int 0, .null])])])]) = true := by
+  decide +kernel
 
 end Examples
 
